@@ -95,6 +95,52 @@ def run_sympy(tier, seed):
                 if want not in tname:
                     res.violation(f"C15/sympy-wrong-coordinate-type-after-assignment coordinate={name}", {"type": type(after[gi]).__name__, "expected": want})
                 res.cell("sympy-assign", name, R.sysname(system))
+    # ---- in-place operators on symbolic vectors: identity, class and coordinate system kept, stored expressions are
+    #      the functional result read in the target's own system
+    for system in R.ALL_SYSTEMS:
+        dim = len(system) + 1
+        names = R.field_names(system)
+        for mom in (False, True):
+            cls = getattr(vector, ("MomentumSympy" if mom else "VectorSympy") + f"{dim}D")
+            for osys in (R.SYSTEMS[dim][0], R.SYSTEMS[dim][-1], system):
+                ocls = getattr(vector, f"VectorSympy{dim}D")
+                onames = R.field_names(osys)
+                for opn in ("+=", "-=", "*=", "/="):
+                    v = cls(**{n: sympy.Symbol(n + "_a", real=True) for n in names})
+                    twin = cls(**{n: sympy.Symbol(n + "_a", real=True) for n in names})
+                    w = ocls(**{n: sympy.Symbol(n + "_b", real=True) for n in onames})
+                    k = sympy.Rational(3, 2)
+                    res.evaluations += 1
+                    try:
+                        functional = {"+=": lambda: twin + w, "-=": lambda: twin - w, "*=": lambda: twin * k, "/=": lambda: twin / k}[opn]()
+                        ident = id(v)
+                        v2 = v
+                        if opn == "+=":
+                            v2 += w
+                        elif opn == "-=":
+                            v2 -= w
+                        elif opn == "*=":
+                            v2 *= k
+                        else:
+                            v2 /= k
+                    except Exception as e:
+                        res.violation(f"C15/sympy-inplace-operator-raises operator={opn}", {"system": R.sysname(system), "exc": f"{type(e).__name__}: {e}"[:200]})
+                        continue
+                    if v2 is not v or id(v) != ident or type(v) is not cls:
+                        res.violation(f"C15/sympy-inplace-operator-identity-or-class operator={opn}", {"system": R.sysname(system), "got": type(v2).__name__})
+                        continue
+                    parts = [getattr(v, p) for p in ("azimuthal", "longitudinal", "temporal") if hasattr(v, p)]
+                    stored = [e for p in parts for e in p.elements]
+                    tnames = "".join(type(p).__name__.lower() for p in parts)
+                    want_sys_ok = all(key in tnames for key in [{"xy": "xy", "rhophi": "rhophi"}[system[0]]] + [s_ for s_ in system[1:]])
+                    if not want_sys_ok:
+                        res.violation(f"C15/sympy-inplace-operator-changes-coordinate-system operator={opn}", {"system": R.sysname(system), "types": tnames})
+                        continue
+                    want = [getattr(functional, nm) for nm in names]
+                    if [sympy.srepr(sympy.sympify(a)) for a in stored] != [sympy.srepr(sympy.sympify(b)) for b in want]:
+                        res.violation(f"C15/sympy-inplace-result-differs-from-functional-result operator={opn}",
+                                      {"system": R.sysname(system), "other": R.sysname(osys), "stored": [str(a)[:80] for a in stored], "functional": [str(b)[:80] for b in want]})
+                    res.cell("sympy-inplace", opn, R.sysname(system))
     res.sample({"sympy": True})
     return res
 
